@@ -1027,9 +1027,11 @@ func (c *checker) match(n *hs.Match) *hs.Type {
 			c.mixedAny(res, at)
 		}
 		if a.Lits == nil {
-			if hasDefault || i != len(n.Arms)-1 {
-				c.unsupported("default arm not last")
+			if hasDefault {
+				c.unsupported("two default arms")
 			}
+			// (a default arm need not be the last one: the arms behind it are unreachable but
+			// checked like any other)
 			hasDefault = true
 			continue
 		}
